@@ -257,6 +257,7 @@ type FilePres struct {
 	QuoteMask       uint64 // cell k (row-major, header included) is quoted when bit k%64 is set
 	Store           bool   // zip method Store instead of Deflate
 	OmitIfEmpty     bool   // optional file with no rows is left out of the archive
+	ZeroBytes       bool   // optional file with no rows is present as a zero-byte member (a parser may reject such an archive)
 	BlankLinesAfter []int  // emit an empty line after these row indices (-1 = after the header); only for files with >= 2 columns
 }
 
@@ -372,6 +373,10 @@ func Render(ts Tables, p Presentation) []byte {
 		if fp.OmitIfEmpty && OptionalFiles[t.Name] && len(t.Rows) == 0 {
 			continue
 		}
+		if fp.ZeroBytes && OptionalFiles[t.Name] && len(t.Rows) == 0 {
+			members = append(members, member{t.Name, nil, fp.Store})
+			continue
+		}
 		members = append(members, member{t.Name, RenderCSV(t, fp), fp.Store})
 	}
 	if len(p.MemberOrder) == len(members) {
@@ -409,3 +414,14 @@ func Render(ts Tables, p Presentation) []byte {
 
 // Canonical is the plain presentation: all files, identity order, LF, trailing newline, minimal quoting.
 func Canonical() Presentation { return Presentation{Files: map[string]FilePres{}} }
+
+// HasZeroByteMember reports whether the archive rendered from ts under p contains a zero-byte member.
+func HasZeroByteMember(ts Tables, p Presentation) bool {
+	for i := range ts {
+		fp := p.Files[ts[i].Name]
+		if fp.ZeroBytes && !fp.OmitIfEmpty && OptionalFiles[ts[i].Name] && len(ts[i].Rows) == 0 {
+			return true
+		}
+	}
+	return false
+}
